@@ -17,12 +17,14 @@
 (*                  job over, 2 it is stuck handing a job to a worker that *)
 (*                  does not take it, 3 it has exited (Stop), 4 it died]   *)
 (*                                                                         *)
-(* act = [op, res, a, i, b, k, j, e, n, retr, hard, prog, g]               *)
+(* act = [op, res, a, i, b, k, j, e, n, retr, nomax, hard, prog, g]        *)
 (*   Connect(a,i)        peer object i of address a handed to the          *)
 (*                       dispatcher (ConnectedPeers)                       *)
 (*   WorkerExit(a,i)     idle worker's peer disconnects, Run returns       *)
-(*   Query(b,n,retr,hard,prog)  res ok | blocked | shutdown                *)
-(*                       retr = 0 means NoRetryMax                         *)
+(*   Query(b,n,retr,nomax,hard,prog)  res ok | blocked | shutdown          *)
+(*                       retr = NumRetries (0 included), nomax = 1 iff     *)
+(*                       NoRetryMax() was given ("NumRetries has no        *)
+(*                       effect")                                          *)
 (*   Dispatch(j,b,k,a,i) job j (request k of batch b) handed to worker     *)
 (*   Gone(a)             dispatcher drops the exited worker of address a   *)
 (*   Result(a,i,j,b,k,e) worker hands back e for job j; res = what the     *)
@@ -77,7 +79,7 @@ AbsCore(a, act, o2) ==
     [] act.op = "WorkerExit" ->
          [a EXCEPT !.live = @ \ {<<act.a, act.i>>}]
     [] act.op = "Query" /\ act.res \in {"ok", "shutdown"} ->
-         [a EXCEPT !.opts = Append(@, [n |-> act.n, retr |-> act.retr,
+         [a EXCEPT !.opts = Append(@, [n |-> act.n, retr |-> act.retr, nomax |-> act.nomax,
                                        hard |-> act.hard, prog |-> act.prog]),
                    !.fails = Append(@, Zeros(act.n)),
                    !.cancel = Append(@, 0), !.hardx = Append(@, 0), !.win = Append(@, 1)]
@@ -115,7 +117,7 @@ AbsNext(a, act, o2) ==
 \* the statement allows, and has its cause occurred?
 Justified(a2, o2, act, b, v) ==
   LET op == a2.opts[b]
-      retry(e) == /\ op.retr > 0 /\ act.op = "Result" /\ act.b = b /\ act.e = e
+      retry(e) == /\ op.nomax = 0 /\ act.op = "Result" /\ act.b = b /\ act.e = e
                   /\ a2.fails[b][act.k] >= op.retr
   IN  CASE v = 0 -> TRUE                         \* judged by SuccessMeansAllAnswered
         [] v = 5 -> act.op = "Stop" \/ a2.stopped = 1
